@@ -42,6 +42,9 @@ var extraTy = map[int]reflect.Type{
 }
 
 func tidOf(t reflect.Type) int {
+	if t == errorType {
+		return -100 // in the introspection streams the type error is the model's IErr / value type -100
+	}
 	if id, ok := tidOfType[t]; ok {
 		return id
 	}
